@@ -11,7 +11,7 @@ If the Driver calls are not all in the loop function itself (a helper was extrac
 helpers are *not* inlined here; the rule set then reports `unrecognised-shape` (fail closed).
 """
 from . import mir
-from .mir import T, mentions, show, Walker, subterms
+from .mir import T, mentions, show, Walker, subterms, Ev
 from .report import Unrecognised
 
 LOOP = "remapping_loop::do_remapping_loop_one_device"
@@ -288,6 +288,13 @@ class Trace:
                     known_flag = e.b
                 if isinstance(e.a, tuple) and e.a[0] == "variantof" and isinstance(e.b, str):
                     self.timer_variant.setdefault(e.a[1], e.b)
+                elif isinstance(e.a, tuple) and e.a[0] == "variantof" and isinstance(e.b, tuple) and e.b and e.b[0] == "other" \
+                        and e.a[1] in (roles.var0(roles.timer), timer):
+                    # `if let Repeating{..} = timer {..} else {..}`: "not Repeating" names the one remaining variant
+                    adt = getattr(body.facts, "adts", {}).get(body.ltypes.get(roles.timer, ""))
+                    rest = [v["name"] for v in (adt or {}).get("variants", ()) if v["name"] not in e.b[1]]
+                    if len(rest) == 1:
+                        self.timer_variant.setdefault(e.a[1], rest[0])
             if e.kind == "set" and e.a == roles.flag:
                 cb = const_bool(e.b)
                 cur_flag = ("const", cb) if cb is not None else ("sym", e.b)
@@ -297,6 +304,15 @@ class Trace:
                 timer = e.b
                 self.items.append(("SETTIMER", e, self._flagval(cur_flag, known_flag, flag), timer))
                 continue
+            if e.kind == "store" and isinstance(e.a, tuple) and e.a[0] == "field" and isinstance(e.a[1], tuple) and e.a[1][0] == "variant" \
+                    and e.a[1][1] in (roles.var0(roles.timer), timer):
+                # one field of the timer state written in place (`*next_wakeup = ..` under `if let Repeating{..} = &mut timer`):
+                # the same as assigning the whole value with the other fields copied
+                new = self._updated(timer, e.a[1][2], e.a[2], e.b, body)
+                if new is not None:
+                    timer = new
+                    self.items.append(("SETTIMER", Ev("set", e.blk, roles.timer, new, span=e.span), self._flagval(cur_flag, known_flag, flag), timer))
+                    continue
             if e.kind == "set" and e.a == roles.timeout:
                 self.items.append(("SETTIMEOUT", e, self._flagval(cur_flag, known_flag, flag), timer))
                 continue
@@ -316,6 +332,25 @@ class Trace:
                 self.items.append(("LOOP", e, self._flagval(cur_flag, known_flag, flag), timer))
         self.final_timer = timer
         self.final_flag = self._flagval(cur_flag, known_flag, flag)
+
+    def _updated(self, timer, variant, field, val, body):
+        if isinstance(timer, tuple) and timer and timer[0] == "agg":
+            if timer[2] != variant or field not in timer[4]:
+                return None
+            ops = list(timer[3])
+            ops[timer[4].index(field)] = val
+            return T("agg", timer[1], timer[2], tuple(ops), timer[4])
+        ty = body.ltypes.get(self.roles.timer, "")
+        adt = getattr(body.facts, "adts", {}).get(ty)
+        if not adt:
+            return None
+        for v in adt.get("variants", ()):
+            if v["name"] == variant:
+                names = tuple(f["name"] for f in v["fields"])
+                if field not in names:
+                    return None
+                return T("agg", ty, variant, tuple(val if n == field else T("field", T("variant", timer, variant), n) for n in names), names)
+        return None
 
     @staticmethod
     def _flagval(cur, known, flag0):
@@ -345,4 +380,40 @@ def payload_kind(M, ev):
             return ("RELALL", p)
         if p[0] == "call" and mir.method_name(p[1]) in ("new", "with_capacity") and "Vec" in p[1]:
             return ("CHORD", p)
+        if chain_chord(p, M.ctx) is not None:
+            return ("CHORD", p)
     return ("OTHER", p)
+
+
+def chain_chord(p, ctx=None):
+    """the chord written as one expression:  a.map(Pressed).chain(b.map(Released)).collect()
+    -> (iterator a, variant built from its elements, iterator b, variant built from its elements) or None"""
+    if not (isinstance(p, tuple) and p and p[0] == "call" and mir.method_name(p[1]) == "collect" and p[2]):
+        return None
+    c = p[2][0]
+    if not (isinstance(c, tuple) and c and c[0] == "call" and mir.method_name(c[1]) == "chain" and len(c[2]) == 2):
+        return None
+    out = []
+    for m in c[2]:
+        if not (isinstance(m, tuple) and m and m[0] == "call" and mir.method_name(m[1]) == "map" and len(m[2]) == 2):
+            return None
+        it, f = m[2]
+        if isinstance(f, tuple) and f and f[0] == "const" and isinstance(f[1], tuple) and f[1][0] == "fn" and f[1][1].rsplit("::", 2)[-2:-1] == ["Event"]:
+            out += [it, f[1][1].rsplit("::", 1)[-1]]
+        elif isinstance(f, tuple) and f and f[0] == "closure" and ctx is not None:
+            # |k| Pressed(*k): one straight path that wraps the visited element
+            elem = T("mapelem", it)
+            try:
+                cps, cb = mir.walk_closure(ctx.body, f, param_terms=[elem])
+            except Exception:
+                return None
+            rets = [q for q in cps if q.outcome[0] == "return"]
+            if len(rets) != 1 or any(e.kind in ("guard", "store", "call") for e in rets[0].events):
+                return None
+            r = rets[0].outcome[1]
+            if not (isinstance(r, tuple) and r and r[0] == "agg" and r[1] == "events::Event" and len(r[3]) == 1 and mir.strip(r[3][0]) == elem):
+                return None
+            out += [it, r[2]]
+        else:
+            return None
+    return tuple(out)
